@@ -7,27 +7,35 @@
 EXTENDS Ccg
 VARIABLE i
 Trace == ndJsonDeserialize(TraceFile)
+TrainOf(r) == IF r.kind = "dense" THEN <<>> ELSE r.t
+LabelsOf(r) == IF r.kind = "dense" THEN <<>> ELSE r.c
 Load(r) == [t |-> r.t, c |-> r.c, ids |-> r.ids, bin |-> r.bin, half |-> r.half]
 TInit == /\ i = 1 /\ RejectInit /\ TLCSet(2, 0)
          /\ LET r == Trace[1] IN
-            /\ t = r.t /\ c = r.c /\ ids = r.ids /\ bin = r.bin /\ half = r.half
-            /\ shift = 1 /\ mask = [k \in 1..Len(r.t) |-> TRUE] /\ pc = "loop"
+            /\ t = TrainOf(r) /\ c = LabelsOf(r) /\ ids = r.ids /\ bin = r.bin /\ half = r.half
+            /\ shift = 1 /\ mask = [k \in 1..Len(TrainOf(r)) |-> TRUE] /\ pc = "loop"
             /\ counts = ZeroCounts(Len(r.ids), r.half) /\ sym = <<>>
-Check1(r) ==
+\* kind "dense": a long dense train given as a bag {tv, nn, ids, bin, half, out, sym}: too long for the machine, judged
+\* by the bag formulation of the pair count (BagAgrees ties it to the brute-force count on every small train)
+CheckDense(r) ==
+  /\ Clause(r.id, "Correct(dense)", CorrectBagOf(r.tv, r.nn, r.ids, r.bin, r.half, r.out))
+  /\ Clause(r.id, "SymOk", SymOkOf(r.ids, r.half, r.out, r.sym))
+CheckRun(r) ==
   /\ Clause(r.id, "counts", AsSeqs(counts, half) = r.out)
   /\ Clause(r.id, "sym", sym = r.sym)
   /\ Clause(r.id, "shifts", r.shifts < 0 \/ shift - 1 = r.shifts)
   /\ Clause(r.id, "Correct", CorrectOf(r.t, r.c, r.ids, r.bin, r.half, r.out))
   /\ Clause(r.id, "SymOk", SymOkOf(r.ids, r.half, r.out, r.sym))
   /\ Clause(r.id, "FiringRate", r.rate = RateNum(r.c, r.ids))
+Check1(r) == IF r.kind = "dense" THEN CheckDense(r) ELSE CheckRun(r)
 Step == pc # "done" /\ Next /\ i' = i
 Consume == /\ pc = "done" /\ i <= Len(Trace)
            /\ Check1(Trace[i]) /\ TLCSet(2, i)
            /\ i' = i + 1
            /\ IF i < Len(Trace)
               THEN LET r == Trace[i + 1] IN
-                   /\ t' = r.t /\ c' = r.c /\ ids' = r.ids /\ bin' = r.bin /\ half' = r.half
-                   /\ shift' = 1 /\ mask' = [k \in 1..Len(r.t) |-> TRUE] /\ pc' = "loop"
+                   /\ t' = TrainOf(r) /\ c' = LabelsOf(r) /\ ids' = r.ids /\ bin' = r.bin /\ half' = r.half
+                   /\ shift' = 1 /\ mask' = [k \in 1..Len(TrainOf(r)) |-> TRUE] /\ pc' = "loop"
                    /\ counts' = ZeroCounts(Len(r.ids), r.half) /\ sym' = <<>>
               ELSE UNCHANGED vars
 TNext == Step \/ Consume
